@@ -431,6 +431,18 @@ def o_mrepr(out, a, ctx):
     return None
 
 
+def o_conc(out, a, ctx):
+    """every thread's result is the result of parsing its own job alone"""
+    parts = out.split(" || ")
+    if len(parts) != len(a["jobs"]):
+        return "expected %d thread results, got %d" % (len(a["jobs"]), len(parts))
+    for k, (j, got) in enumerate(zip(a["jobs"], parts)):
+        alone = impl.eval_guarded(j)
+        if got != alone:
+            return "thread %d of %d (%s) gave %s, the same call alone gives %s" % (k, len(parts), j[:40], got[:80], alone[:80])
+    return None
+
+
 def o_same_as(out, a, ctx):
     other = impl.eval_guarded(a["other_line"], a.get("other_extra"))
     fa = [x for x in out.split() if x.startswith("F:")]
@@ -484,7 +496,7 @@ def o_sibling(out, a, ctx):
 ORACLES = {f.__name__[2:]: f for f in [o_sibling, 
     o_attrs_expected, o_total, o_c01, o_frames_expected, o_rejected, o_equals, o_serialize, o_parse_ser,
     o_crc, o_parse_err, o_msm_labels, o_immutable, o_identity, o_label_only, o_helpers, o_names,
-    o_sock_conserve, o_same_as, o_parse_same, o_mrepr]}
+    o_sock_conserve, o_same_as, o_parse_same, o_mrepr, o_conc]}
 
 
 def case(line, klass, oracle=None, extra=None, **meta):
@@ -1502,6 +1514,17 @@ def cases_C13(ctx):
                     pass
     bad = ["msg 1 " + hx(bytes(rng.getrandbits(8) for _ in range(rng.randint(0, 6)))) for _ in range(ctx.n(40, 400))]
     order = corpus + [(b, "bad") for b in bad]
+    # pools of threads: the small-step model under a random (ragged, unfair) schedule against as many
+    # real threads released together; every thread's result must be that of its own call alone
+    for _ in range(ctx.n(40, 400)):
+        k = rng.randint(2, 6)
+        pick = [rng.choice(order)[0] for _ in range(k)]
+        if rng.random() < 0.3:
+            pick[rng.randrange(k)] = pick[0]          # the same bytes in two threads
+        jobs = ",".join("%s:%s" % (l.split()[1], l.split()[2] or "-") for l in pick)
+        sched = ",".join(str(rng.choice(range(k + 1)) if rng.random() < 0.8 else rng.randrange(k))
+                         for _ in range(rng.choice([0, 3, 20, 200, 1000])))
+        cs.append(case("conc %s %s" % (sched or "-", jobs), "threads%d" % k, ("conc", {"jobs": pick})))
     for rep in range(ctx.n(3, 8)):
         rng.shuffle(order)
         for line, ident in order:
